@@ -163,25 +163,51 @@ impl Graph {
         }
     }
 
-    fn print_ctx(&self, ctx: usize, indent: usize, out: &mut String) {
-        let pad = "    ".repeat(indent);
+    /// Smallest node index inside loop `l` (including nested loops).
+    fn loop_key(&self, l: usize) -> usize {
+        let mut best = usize::MAX;
         for (i, n) in self.nodes.iter().enumerate() {
-            if n.lp == ctx {
-                out.push_str(&format!("{pad}n{i} = {};\n", self.op_text(i)));
+            let mut c = n.lp;
+            while c != 0 {
+                if c == l {
+                    best = best.min(i);
+                    break;
+                }
+                c = self.loops[c];
             }
         }
+        best
+    }
+
+    /// Statements of context `ctx` in node-creation order: every node is followed by its input
+    /// edges, and a child `loop {}` block is written where its first node was created (so the
+    /// order of operators, edges and therefore handoffs in the compiled graph follows the order in
+    /// which the family code builds the program).
+    fn print_ctx(&self, ctx: usize, indent: usize, out: &mut String) {
+        let pad = "    ".repeat(indent);
+        // (key, is_loop, id)
+        let mut items: Vec<(usize, bool, usize)> = vec![];
         for (i, n) in self.nodes.iter().enumerate() {
             if n.lp == ctx {
-                for (port, &p) in n.ins.iter().enumerate() {
-                    out.push_str(&format!("{pad}{}\n", self.edge_text(p, i, port)));
-                }
+                items.push((i, false, i));
             }
         }
         for l in 1..self.loops.len() {
             if self.loops[l] == ctx {
+                items.push((self.loop_key(l), true, l));
+            }
+        }
+        items.sort();
+        for (_, is_loop, id) in items {
+            if is_loop {
                 out.push_str(&format!("{pad}loop {{\n"));
-                self.print_ctx(l, indent + 1, out);
+                self.print_ctx(id, indent + 1, out);
                 out.push_str(&format!("{pad}}};\n"));
+            } else {
+                out.push_str(&format!("{pad}n{id} = {};\n", self.op_text(id)));
+                for (port, &p) in self.nodes[id].ins.iter().enumerate() {
+                    out.push_str(&format!("{pad}{}\n", self.edge_text(p, id, port)));
+                }
             }
         }
     }
@@ -1053,6 +1079,76 @@ pub fn family_c26() -> Vec<Graph> {
         b.add(0, Op::Sink(2), &[a0]);
         out.push(b.done());
     }
+    // T9. one loop owning TWO defer_tick countdown cycles with a child loop (own cycle) created
+    // before / between / after them (the delayed handoffs of the two loops interleave).
+    for (tag, ord) in [("d1_child_d2", [0usize, 2, 1]), ("child_d1_d2", [2, 0, 1]), ("d1_d2_child", [0, 1, 2])] {
+        for (l1z, l2z) in [(false, false), (false, true)] {
+            // nested: root loop L1 > L2 (two cycles) > L3 (child)
+            let mut b = GB::new(&format!("c26_two_cycles_nested_{tag}_{}", lazy_name(&[l1z, l2z])), 1, 1);
+            let l1 = b.lp(0);
+            let l2 = b.lp(l1);
+            let l3 = b.lp(l2);
+            let s0 = b.add(0, Op::Source(0), &[]);
+            let e0 = b.add(l1, Op::Batch, &[s0]);
+            let t0 = b.add(l1, Op::Tee, &[e0]);
+            b.add(l1, Op::BlockSink(0), &[t0]);
+            let ea = b.add(l2, Op::Batch, &[t0]);
+            let eb = b.add(l2, Op::Batch, &[t0]);
+            let mut t1 = usize::MAX;
+            // The child reads the first cycle's tee; when it is created first, it reads the entry.
+            for part in ord {
+                match part {
+                    0 => t1 = countdown_cycle(&mut b, l2, &[ea], &[l1z], 1),
+                    1 => {
+                        countdown_cycle(&mut b, l2, &[eb], &[l2z], 3);
+                    }
+                    _ => {
+                        let from = if t1 == usize::MAX { t0 } else { t1 };
+                        if from == t0 {
+                            // child created before the cycles: feed it from a third entry of L2
+                            let ec = b.add(l2, Op::Batch, &[t0]);
+                            let ic = b.add(l2, Op::Identity, &[ec]);
+                            let e3 = b.add(l3, Op::Batch, &[ic]);
+                            countdown_cycle(&mut b, l3, &[e3], &[false], 2);
+                        } else {
+                            let e3 = b.add(l3, Op::Batch, &[from]);
+                            countdown_cycle(&mut b, l3, &[e3], &[false], 2);
+                        }
+                    }
+                }
+            }
+            out.push(b.done());
+        }
+        // root loop L1 owning the two (tick-delayed) cycles, child L2 nested in it
+        let mut b = GB::new(&format!("c26_two_cycles_root_{tag}"), 1, 1);
+        let l1 = b.lp(0);
+        let l2 = b.lp(l1);
+        let s00 = b.add(0, Op::Source(0), &[]);
+        let s0 = b.add(0, Op::Tee, &[s00]);
+        let ea = b.add(l1, Op::Batch, &[s0]);
+        let eb = b.add(l1, Op::Batch, &[s0]);
+        let mut t1 = usize::MAX;
+        for part in ord {
+            match part {
+                0 => t1 = countdown_cycle(&mut b, l1, &[ea], &[false], 0),
+                1 => {
+                    countdown_cycle(&mut b, l1, &[eb], &[false], 3);
+                }
+                _ => {
+                    if t1 == usize::MAX {
+                        let ec = b.add(l1, Op::Batch, &[s0]);
+                        let ic = b.add(l1, Op::Identity, &[ec]);
+                        let e3 = b.add(l2, Op::Batch, &[ic]);
+                        countdown_cycle(&mut b, l2, &[e3], &[false], 2);
+                    } else {
+                        let e3 = b.add(l2, Op::Batch, &[t1]);
+                        countdown_cycle(&mut b, l2, &[e3], &[false], 2);
+                    }
+                }
+            }
+        }
+        out.push(b.done());
+    }
     // T8. root-level defers around a root loop.
     for lz in [false, true] {
         let mut b = GB::new(&format!("c26_defer_before_loop_{}", lazy_name(&[lz])), 1, 1);
@@ -1576,6 +1672,9 @@ pub struct SlotProg {
     pub pipe_map: bool,
     /// Pipe consumer: `for_each` or `map -> for_each`.
     pub consumer_map: bool,
+    /// Pipe consumer sits behind `defer_tick()` (Some(false)) / `defer_tick_lazy()` (Some(true)):
+    /// the slot is then a double-buffered handoff and the consumer sees the contents one tick later.
+    pub consumer_defer: Option<bool>,
     /// Readers (all shared references), id = index.
     pub readers: Vec<Reader>,
     /// Textual order of the statements after the slot definition: 0 = the pipe consumer,
@@ -1589,7 +1688,7 @@ impl SlotProg {
     }
     fn enc_expr(&self) -> &'static str {
         match self.kind {
-            SlotKind::Handoff => "r.iter().fold(0i64, |v, x| v * 32 + (x.0 as i64 * 4 + x.1 as i64 + 1))",
+            SlotKind::Handoff => "r.iter().fold(0i64, |v: i64, x: &It| v * 32 + (x.0 as i64 * 4 + x.1 as i64 + 1))",
             SlotKind::Optional => "r.map(|v| v.0 as i64 * 256 + v.1 as i64).unwrap_or(-1)",
             SlotKind::Singleton => "(r.0 as i64 * 256 + r.1 as i64)",
         }
@@ -1611,15 +1710,28 @@ impl SlotProg {
         for &o in &self.order {
             if o == 0 {
                 let m = if self.consumer_map { "map(|x: It| (x.0, x.1)) -> " } else { "" };
+                let m = match self.consumer_defer {
+                    None => m.to_string(),
+                    Some(false) => format!("defer_tick() -> {m}"),
+                    Some(true) => format!("defer_tick_lazy() -> {m}"),
+                };
                 s.push_str(&format!("{pad}sl -> {m}for_each(|x: It| io.item(1, context.current_tick().0, x));\n"));
             } else {
                 let rd = &self.readers[o - 1];
                 let grp = rd.group.map(|g| format!("{{{g}}} ")).unwrap_or_default();
-                let body = format!(
-                    "let r = #{grp}sl; let v = {}; io.rlog({}, context.current_tick().0, x.0, v, v);",
-                    self.enc_expr(),
-                    rd.id
-                );
+                let body = if rd.is_mut {
+                    format!(
+                        "let r = #{grp}mut sl; let before = {e}; r.push((0u8, x.0)); let after = {e}; io.rlog({id}, context.current_tick().0, x.0, before, after);",
+                        e = self.enc_expr(),
+                        id = rd.id
+                    )
+                } else {
+                    format!(
+                        "let r = #{grp}sl; let v = {}; io.rlog({}, context.current_tick().0, x.0, v, v);",
+                        self.enc_expr(),
+                        rd.id
+                    )
+                };
                 let cl = match rd.kind {
                     CK::Map => format!("map(|x: It| {{ {body} x }})"),
                     CK::Filter => format!("filter(|x: &It| {{ {body} true }})"),
@@ -1671,13 +1783,32 @@ pub fn expect_slot(p: &SlotProg, h: &History) -> C25Expect {
                 (a.0 as i64 * 256 + a.1 as i64, vec![a])
             }
         };
-        drained.sort();
-        consumer.push(drained);
-        for r in &p.readers {
-            for x in per_src(r.id + 1) {
-                readers.get_mut(&r.id).unwrap().push(RLog { reader: r.id, tick: t as u64, item: x.0, before: val, after: val });
+        // Readers in ascending access-group order; a mutating reader (handoff slots only) appends
+        // (0, item) to the buffer.
+        let enc = |v: &Vec<It>| v.iter().fold(0i64, |a, x| a * 32 + (x.0 as i64 * 4 + x.1 as i64 + 1));
+        let mut val = val;
+        let mut groups: Vec<Option<u32>> = p.readers.iter().map(|r| r.group).collect();
+        groups.sort();
+        groups.dedup();
+        for g in groups {
+            for r in p.readers.iter().filter(|r| r.group == g) {
+                for x in per_src(r.id + 1) {
+                    let before = val;
+                    if r.is_mut {
+                        drained.push((0, x.0));
+                        val = enc(&drained);
+                    }
+                    readers.get_mut(&r.id).unwrap().push(RLog { reader: r.id, tick: t as u64, item: x.0, before, after: val });
+                }
             }
         }
+        drained.sort();
+        consumer.push(drained);
+    }
+    if p.consumer_defer.is_some() {
+        // The consumer behind a defer sees tick t's contents in tick t+1.
+        consumer.insert(0, vec![]);
+        consumer.pop();
     }
     C25Expect { readers, consumer: Some(consumer) }
 }
@@ -1700,6 +1831,7 @@ pub fn family_c25_slot() -> Vec<SlotProg> {
                     kind,
                     pipe_map: n % 2 == 0,
                     consumer_map: n % 3 == 0,
+                    consumer_defer: None,
                     readers,
                     order: perm,
                 });
@@ -1720,8 +1852,38 @@ pub fn family_c25_slot() -> Vec<SlotProg> {
                     kind,
                     pipe_map: n % 2 == 0,
                     consumer_map: n % 3 == 0,
+                    consumer_defer: None,
                     readers,
                     order,
+                });
+            }
+        }
+    }
+    // Slot whose pipe consumer sits behind defer_tick / defer_tick_lazy (double-buffered handoff):
+    // one shared reader, two shared readers, and a `#{0} mut` + `#{1}` pair; all statement orders.
+    for lazy in [false, true] {
+        let cfgs: Vec<(&str, Vec<(Option<u32>, bool)>)> = vec![
+            ("s", vec![(None, false)]),
+            ("ss", vec![(None, false), (None, false)]),
+            ("m0s1", vec![(Some(0), true), (Some(1), false)]),
+        ];
+        for (tag, cfg) in cfgs {
+            for perm in permutations(cfg.len() + 1) {
+                n += 1;
+                let readers: Vec<Reader> = cfg
+                    .iter()
+                    .enumerate()
+                    .map(|(i, &(g, m))| Reader { id: i, kind: ck_of(i + n), group: g, is_mut: m, shared_input: false })
+                    .collect();
+                let ord: String = perm.iter().map(|x| x.to_string()).collect();
+                out.push(SlotProg {
+                    name: format!("c25_slotref_handoff_defer{}_{tag}_ord{ord}", if lazy { "L" } else { "T" }),
+                    kind: SlotKind::Handoff,
+                    pipe_map: n % 2 == 0,
+                    consumer_map: n % 3 == 0,
+                    consumer_defer: Some(lazy),
+                    readers,
+                    order: perm,
                 });
             }
         }
